@@ -2,14 +2,14 @@
 import shutil
 from concurrent.futures import ThreadPoolExecutor
 
-from vlib.core import write_cfg, count_lines, CheckerError
+from vlib.core import write_cfg, count_lines, CheckerError, REPO
 from props.C13 import Bg, tlc_locked, validate_trace_locked, _lock
 
 LEVEL = "model_checking"
 META = {
     "technique": "TLA+ specs DurationText / HostPort / PrefixText / UrlModel model-checked by TLC (round-trip and cut lemmas); every enumerated value replayed on the Go codecs with the spec's predicted text; recorded real encodings re-judged by TLC",
     "level_text": "DurationText.tla models time.Duration.String (unit selection, fraction trimming), the statement's textual cut, golibs' arithmetic cut and a ParseDuration grammar over 32-bit-safe components; TLC proves cut = statement and Parse(Str(d)) = d on the grid incl. MinInt64/MaxInt64. HostPort.tla models Join/SplitHostPort over character tokens and proves the round trip for all bracket-free hosts up to the bound. PrefixText.tla gives the verdict per address/length text class. UrlModel.tla assembles URLs from optional components with one special character class per component (what url.Parse accepts, what String() prints) and models encoding/json's string escaping and decoding; TLC proves the JSON layer lossless and characterises the pre-fix decoder. Every enumerated value is replayed: predicted texts are compared with time.Duration.String / the statement's cut / net, netip and net/url as references, and all round trips of the statement (MarshalText, json bare / struct / slice / map / Encoder with and without HTML escaping) are executed. Random int64 durations, host:ports and URLs are recorded from the real code and re-judged by the trace specs; larger random sweeps are checked in Go.",
-    "level_note": "Exhaustive within the enumerated grids/classes only; class representatives and the rune abstraction are trusted; the exact text of HostPort.String, the JSON bytes and url.Parse's acceptance are modelled but not demanded (a disagreement there is a checker error, not a violation).",
+    "level_note": "Results-are-values obligation: MarshalValues.tla models encoder results as buffer views, proves them immutable for a fresh-buffer encoder and must refute a pooled-buffer one; the harness retains the []byte / string results uncopied across later calls and across goroutines (-race build) and re-reads them. Exhaustive within the enumerated grids/classes only; class representatives and the rune abstraction are trusted; the exact text of HostPort.String, the JSON bytes and url.Parse's acceptance are modelled but not demanded (a disagreement there is a checker error, not a violation).",
 }
 
 # The two kinds of accepted URLs that cannot survive a text round trip because of how net/url prints them
@@ -28,7 +28,9 @@ def run(ctx):
                 "with the predicted texts and replayed on the Go codecs (all round trips of the statement executed, references "
                 "time.Duration.String / netip / net/url compared); T: seeded random int64 durations, host:ports and URLs "
                 "recorded from the real code, abstracted to components / character tokens and re-judged by the trace specs; "
-                "plus Go-only sweeps. distinct_nontrivial = distinct values / texts exercised")
+                "plus Go-only sweeps; values-not-views: every Marshal/Unmarshal call sequence of MarshalValues.tla replayed with the "
+                "[]byte results retained uncopied and re-read afterwards, random sequences re-judged by MarshalValuesTrace, and a "
+                "free-running -race phase of goroutines marshalling shared values. distinct_nontrivial = distinct values / texts exercised")
     ctx.assumptions += ["characters of one model class are treated alike by the codecs (several representatives replayed)",
                         "json.Marshal of a non-addressable urlutil.URL value (pointer-receiver MarshalText, documented TODO) is outside the statement",
                         "hosts contain no square brackets (the statement's precondition)"]
@@ -37,6 +39,7 @@ def run(ctx):
     bg = Bg()
     sums = []
     pool = ThreadPoolExecutor(max_workers=6 if q else 12)
+    exhaustive = []
 
     def vh_collect(args, tag):
         out = ctx.scratch / (tag + ".res")
@@ -95,12 +98,53 @@ def run(ctx):
             sums.append({"evaluations": s["evaluations"], "distinct_nontrivial": s["distinct_nontrivial"],
                          "traced_events": s["events"], "edge_class_failures": s.get("edge_class_failures", 0)})
 
+    # ---- "results are values, not views": MarshalValues.tla (MC fresh, pooled refuted), G, T, and the -race stress phase
+    vfiles = ["MarshalValues.tla", "MarshalValuesGen.tla", "MarshalValuesTrace.tla", "MarshalValuesTrace.cfg"]
+
+    def values_job():
+        dd = subdir("values", vfiles)
+        consts = {"Objs": "<- ModelObjs", "TextOf": "<- ModelText", "MaxOps": 5 if q else 6}
+        write_cfg(dd / "ValMC_run.cfg", "Spec", dict(consts, Impl='"fresh"'), invariants=["ValuesNotViews", "RoundTripsToOwn"])
+        tlc_locked(ctx, dd, "MarshalValues", "ValMC_run.cfg", workers=2, label="values-mc")
+        write_cfg(dd / "ValPooled_run.cfg", "Spec", dict(consts, Impl='"pooled"'), invariants=["ValuesNotViews"])
+        r = ctx.tlc(dd, "MarshalValues", "ValPooled_run.cfg", workers=2, expect_ok=False, count=False,
+                    label="values-pooled-must-fail")
+        if r.violated != "ValuesNotViews":
+            raise CheckerError("MarshalValues.tla does not refute the pooled-buffer encoder:\n" + "\n".join(r.out.splitlines()[-20:]))
+        write_cfg(dd / "ValGen_run.cfg", "GSpec", dict(consts, Impl='"fresh"', MaxOps=4 if q else 5),
+                  invariants=["Emit", "ValuesNotViews", "RoundTripsToOwn"])
+        tlc_locked(ctx, dd, "MarshalValuesGen", "ValGen_run.cfg", workers=2, label="values-gen")
+        exhaustive.append(count_lines(dd / "values_vectors.ndjson"))
+        vh_collect(["c14", "replay-values", dd / "values_vectors.ndjson"], "values")
+        out = ctx.scratch / "valrec.res"
+        ctx.vh(["c14", "record-values", dd / "values_trace.ndjson", out, 300 if q else 3000], timeout=1800)
+        s = ctx.collect(out)
+        pool.submit(validate_trace_locked, ctx, dd, "MarshalValuesTrace", "MarshalValuesTrace.cfg", "values_trace.ndjson",
+                    "retained encoder results").result()
+        with _lock:
+            sums.append({"evaluations": s["evaluations"], "traced_events": s["events"]})
+
+    def stress_job():
+        dd = subdir("stress", vfiles)
+        out = ctx.scratch / "stress.res"
+        g, iters = (8, 4000) if q else (16, 40000)
+        ctx.vh(["c14", "stress", dd / "values_trace.ndjson", out, g, iters], race=True, timeout=1800, env=env,
+               fatal_key="concurrent marshalling of urlutil.URL / Duration / HostPort / Prefix")
+        if not out.exists():
+            return          # runtime abort inside the code under test: recorded by ctx.vh
+        s = ctx.collect(out)
+        pool.submit(validate_trace_locked, ctx, dd, "MarshalValuesTrace", "MarshalValuesTrace.cfg", "values_trace.ndjson",
+                    "results retained by concurrent goroutines").result()
+        with _lock:
+            sums.append({"evaluations": s["stress_calls"], "traced_events": s["events"], "stress_calls": s["stress_calls"],
+                         "retained_results": s["retained_results"]})
+
+    bg.go(stress_job)
     bg.go(t_duration)
     bg.go(t_hostport)
     bg.go(t_url)
 
     # ------------------------------------------------------------- MC + G
-    exhaustive = []
 
     def g_duration():
         dd = subdir("g_dur", ["DurationText.tla", "DurationGen.tla"])
@@ -148,6 +192,7 @@ def run(ctx):
         exhaustive.append(count_lines(dd / "url_vectors.ndjson"))
         vh_collect(["c14", "replay-url", dd / "url_vectors.ndjson"], "url")
 
+    bg.go(values_job)
     bg.go(g_duration)
     bg.go(g_hostport)
     bg.go(g_prefix)
@@ -166,6 +211,18 @@ def run(ctx):
     ctx.extra["trace_events_validated"] = sum(s.get("traced_events", 0) for s in sums)
     ctx.extra["url_edge_class_failures_seen"] = sum(s.get("edge_class_failures", 0) for s in sums)
     ctx.extra["model_diffs"] = sum(s.get("model_diffs", 0) for s in sums)
+    ctx.extra["retained_results_reverified"] = sum(s.get("retained_results", 0) for s in sums)
+    ctx.extra["stress_calls"] = sum(s.get("stress_calls", 0) for s in sums)
+    golibs, other = ctx.race_reports()
+    if other and not golibs:
+        raise CheckerError("race detector reported a race in the harness only:\n" + other[0][:3000])
+    for rep in golibs:
+        frames = [ln.strip() for ln in rep.splitlines() if str(REPO) + "/" in ln and ".go:" in ln]
+        where = " | ".join(sorted(set("/".join(f.split(" ")[0].split("/")[-2:]) for f in frames))[:4])
+        ctx.mismatch("DATA RACE in concurrent marshalling: " + where,
+                     "the Go race detector reported a data race with a golibs frame while goroutines marshalled / unmarshalled "
+                     "different values", rep[:6000])
+    ctx.extra["race_reports_with_golibs_frames"] = len(golibs)
     if ctx.extra["model_diffs"] and not ctx.mismatches:
         raise CheckerError("model differences without a mismatch")
 
